@@ -57,11 +57,10 @@ impl ParseTag for IncludeTag {
             ));
 
             if let Ok(comma) = arguments.expect_next("") {
-                // stop looking for variables if there is no comma
                 // currently allows for one trailing comma
-                if comma.expect_str(",").into_result().is_err() {
-                    break;
-                }
+                comma
+                    .expect_str(",")
+                    .into_result_custom_msg("`,` is needed to separate variables")?;
             }
         }
 
